@@ -17,7 +17,7 @@ RULE = (
     "unknown gate target (gates with 1-3 real targets, route and if/else, with and without END), a second plainly "
     "unordered non-exclusive producer of a name, 3 producers whose neighbours are ordered but first/last are not, "
     "duplicate node name, non-identifier and keyword node/output names, END as node name, graph name with '.' or '/', "
-    "inconsistent defaults (present/absent, different values), wait_for on an unproduced name, explicit edge with unknown "
+    "inconsistent defaults (present/absent, different values, None as a value), wait_for on an unproduced name, explicit edge with unknown "
     "source / target / value, strict mode: missing producer or consumer annotation and incompatible types. The flawed "
     "graph must raise GraphConfigError (nothing else, no acceptance), the unflawed base and the plainly ordered / "
     "plainly exclusive duplicates must be accepted. Type relation: closed universe (atoms incl. subclass pair, Any, "
@@ -117,10 +117,18 @@ def flaws_for(spec):
                 q2 = next(x for x in s2["nodes"][i]["params"] if x["n"] == p["n"])
                 q2["d"] = "a-different-default"
                 yield "inconsistent-defaults", f"{ns['name']}.{p['n']} different value", s2
+                # a default that IS None is a default (not "no default")
+                s3 = copy.deepcopy(spec)
+                q3 = next(x for x in s3["nodes"][i]["params"] if x["n"] == p["n"])
+                q3["d"] = None
+                yield "inconsistent-defaults", f"{ns['name']}.{p['n']} different value (None)", s3
             else:
                 q["d"] = "only-here"
                 s["nodes"][i]["params"].sort(key=lambda x: "d" in x)
                 yield "inconsistent-defaults", f"{ns['name']}.{p['n']} default added", s
+                s3 = copy.deepcopy(s)
+                next(x for x in s3["nodes"][i]["params"] if x["n"] == p["n"])["d"] = None
+                yield "inconsistent-defaults", f"{ns['name']}.{p['n']} default None added", s3
         # a second, plainly unordered and non-exclusive producer of one of this node's outputs
         if ns.get("outs") and len(prod.get(ns["outs"][0], [])) == 1 and not ref.controlling(spec).get(ns["name"]):
             s = copy.deepcopy(spec)
